@@ -24,6 +24,14 @@ class Inconclusive(Exception):
     """Infrastructure failure: exit 2, never a violation."""
 
 
+def _default_signals():
+    """drivers raise real signals on themselves (termmon scenarios): give them the dispositions a program normally starts
+    with, whatever this check inherited (a background job of a non-interactive shell has SIGINT / SIGQUIT ignored)"""
+    import signal
+    for sg in (signal.SIGINT, signal.SIGTERM, signal.SIGHUP, signal.SIGQUIT):
+        signal.signal(sg, signal.SIG_DFL)
+
+
 def goenv():
     e = dict(os.environ)
     e.update(GOFLAGS="-mod=mod", GOPROXY="off", GOSUMDB="off", GOTOOLCHAIN="local",
@@ -350,7 +358,7 @@ class Ctx:
             e.update(env)
         try:
             p = subprocess.run([binary] + list(args), input=stdin, stdout=subprocess.PIPE, stderr=subprocess.PIPE,
-                               timeout=timeout, text=True, env=e, cwd=cwd or self.scratch)
+                               timeout=timeout, text=True, env=e, cwd=cwd or self.scratch, preexec_fn=_default_signals)
         except subprocess.TimeoutExpired:
             raise Inconclusive("driver timeout: %s %s" % (binary, " ".join(args)))
         return p
